@@ -228,6 +228,9 @@ func (r *rec) source(corpus []string, rawEp bool) string {
 	if len(corpus) > 0 && r.rng.Intn(3) == 0 {
 		return corpus[r.rng.Intn(len(corpus))]
 	}
+	if r.rng.Intn(7) == 0 {
+		return gen.CastleStress(r.rng)
+	}
 	pr := profiles[r.rng.Intn(len(profiles))]
 	pr.RawEp = rawEp
 	return gen.RandomValid(r.rng, pr)
@@ -235,6 +238,18 @@ func (r *rec) source(corpus []string, rawEp bool) string {
 
 // pick a move with a bias towards the rarer kinds (captures, promotions, castling, en passant, pawn double pushes)
 func (r *rec) pick(b *board.Board, lm []move.Move) move.Move {
+	// captures on rook home squares and recaptures by rooks there (castling-right bookkeeping)
+	if r.rng.Intn(3) == 0 {
+		var corner []move.Move
+		for _, m := range lm {
+			if t := m.To(); (t == A1 || t == H1 || t == A8 || t == H8) && b.SquaresToPiece[t] != NoPiece {
+				corner = append(corner, m)
+			}
+		}
+		if len(corner) > 0 {
+			return corner[r.rng.Intn(len(corner))]
+		}
+	}
 	if r.rng.Intn(3) == 0 {
 		var special []move.Move
 		for _, m := range lm {
@@ -254,13 +269,25 @@ func (r *rec) pick(b *board.Board, lm []move.Move) move.Move {
 
 func (r *rec) play(corpus []string, plies int, rawEp bool) {
 	for !r.full() {
-		b := r.load(r.source(corpus, rawEp))
+		var b *board.Board
+		first := move.Move(0)
+		if r.rng.Intn(6) == 0 {
+			fen, from, to := gen.EpStress(r.rng)
+			b = r.load(fen)
+			first = move.From(Square(from)) | move.To(Square(to))
+		} else {
+			b = r.load(r.source(corpus, rawEp))
+		}
 		for ply := 0; ply < plies && !r.full(); ply++ {
 			lm := proj.Playable(b, r.ms)
 			if len(lm) == 0 {
 				break
 			}
-			r.make(b, r.pick(b, lm), true)
+			m := r.pick(b, lm)
+			if ply == 0 && first != 0 && contains(lm, first) && r.rng.Intn(5) != 0 {
+				m = first
+			}
+			r.make(b, m, true)
 		}
 	}
 }
